@@ -365,4 +365,84 @@ def proxiedRetrieve (env : Env) (cancelled : Bool) (ids : Except GoErr IdsReply)
     (clientGetIDs env (if cancelled then .error env.canceledTransport else stub env .nilRes ids))
     (fun i n => clientGet env (stub env 0 (get i n)))
 
+/-! ## a call the caller gives up in the middle (`xsubmit`)
+
+The DA layer behind both sides takes the batch and waits for its inclusion.  It honours the context it was
+given: when that context is cancelled while it waits, it drops the batch (nothing stored) and returns
+`ctx.Err()`; otherwise the batch is stored and one id per blob comes back. -/
+
+/-- everything that can be observed of one such submission -/
+structure MidCall (α : Type) where
+  /-- what `SubmitWithOptions` returns to the caller -/
+  result : Except GoErr Nat
+  /-- the batch the DA layer received (`none`: no call reached it) -/
+  reached : Option (List α)
+  /-- the DA layer saw its context cancelled while it was waiting -/
+  sawCancel : Bool
+  /-- what the DA layer holds afterwards -/
+  stored : List α
+
+/-- the waiting DA layer; `ctxCancelled` = the context *it was given* is cancelled while it waits -/
+def waitingDA {α} (env : Env) (ctxCancelled : Bool) (bs : List α) : Except GoErr Nat × Bool × List α :=
+  if ctxCancelled then (.error env.ctxCanceled, true, []) else (.ok bs.length, false, bs)
+
+/-- in-process: the DA layer is called with the caller's own context -/
+def directMidCall {α} (env : Env) (blobs : List α) (cancelMid : Bool) : MidCall α :=
+  let r := waitingDA env cancelMid blobs
+  { result := r.1, reached := some blobs, sawCancel := r.2.1, stored := r.2.2 }
+
+/-- proxied: `serverInternalAPI.SubmitWithOptions` (server.go) hands the *request* context to the DA
+layer, and the request context ends when the client aborts the HTTP request, which it does when the
+caller's context is cancelled: the cancellation crosses the wire (`waitingDA env cancelMid`).  The
+client's own call then fails in the transport with the context's error text (re-mapped to
+`context.Canceled` by client.go:181-184). -/
+def proxiedMidCall {α} (env : Env) (size : α → Nat) (max : Nat) (blobs : List α) (cancelMid : Bool) : MidCall α :=
+  match filterBlobs size max blobs with
+  | .tooBig => { result := .error (env.sentinel .blobSizeOverLimit), reached := none, sawCancel := false, stored := [] }
+  | .nothing => { result := .ok 0, reached := none, sawCancel := false, stored := [] }
+  | .send bs =>
+    let r := waitingDA env cancelMid bs
+    { result := if cancelMid then .error (remapCanceled env env.canceledTransport) else clientSubmitReply env r.1,
+      reached := some bs, sawCancel := r.2.1, stored := r.2.2 }
+
+/-! ## two callers, one client (`csubmit`)
+
+The node's header and data submission loops call `SubmitWithOptions` on the same client from two
+goroutines.  A call has two phases: `pack` (the size filter builds the batch — in client.go a slice
+allocated by that call, `make([][]byte, 0, len(inputBlobs))`) and `send` (the generated stub encodes the
+batch the call holds).  The phases of the two calls interleave in any order. -/
+
+inductive Caller
+  | a | b
+  deriving DecidableEq, Repr
+
+inductive Phase
+  | pack (c : Caller) | send (c : Caller)
+  deriving DecidableEq, Repr
+
+/-- the client's two calls in flight: the batch each call holds and what each request carried -/
+structure Calls (α : Type) where
+  batchA : Option (FilterOutcome α) := none
+  batchB : Option (FilterOutcome α) := none
+  wireA : Option (List α) := none
+  wireB : Option (List α) := none
+
+def FilterOutcome.batch {α} : FilterOutcome α → Option (List α)
+  | .send bs => some bs
+  | _ => none
+
+def Calls.step {α} (size : α → Nat) (max : Nat) (inA inB : List α) (s : Calls α) : Phase → Calls α
+  | .pack .a => { s with batchA := some (filterBlobs size max inA) }
+  | .pack .b => { s with batchB := some (filterBlobs size max inB) }
+  | .send .a => { s with wireA := s.batchA.bind FilterOutcome.batch }
+  | .send .b => { s with wireB := s.batchB.bind FilterOutcome.batch }
+
+def Calls.run {α} (size : α → Nat) (max : Nat) (inA inB : List α) (sched : List Phase) : Calls α :=
+  sched.foldl (Calls.step size max inA inB) {}
+
+/-- `csubmit gate=stub`: A is held between packing and encoding while B runs from start to end -/
+def schedStub : List Phase := [.pack .a, .pack .b, .send .b, .send .a]
+/-- `csubmit gate=da`: A's request has arrived at the DA layer when B starts -/
+def schedDA : List Phase := [.pack .a, .send .a, .pack .b, .send .b]
+
 end DAProxy
